@@ -207,7 +207,14 @@ def r6_end_to_end(run, tree):
     qs.check_to_stack(run, tree)
 
 
-RULES = [r1_r2_array_to, r3_vector_to, r4_constants, r5_registry, r6_end_to_end]
+def r7_vector_unit(run, tree):
+    run.rule("C08.R7", "relabelling a Vector (v.unit = u) goes through the unit setter of every component Array, so that whatever the components remember about their unit is reset (shared with C09.R6)",
+             "D7 fold of Vector.__init__ / unit setter over component tokens", "", floor=8)
+    from . import core_folds as cf
+    cf.check_vector_constructor(run, tree)
+
+
+RULES = [r1_r2_array_to, r3_vector_to, r4_constants, r5_registry, r6_end_to_end, r7_vector_unit]
 
 
 def t_pair_space(run, tree):
